@@ -15,7 +15,7 @@
      d_dp d                   the amplifier's _delta_p;  d_delta_p d  its delta_p (None in gain mode)
      budget_wf [] chain       at every amplifier, the span loss the design reads (cached design_span_loss or the sum the
                               generators reach) is the loss really crossed since the previous amplifier
-     raw_ok raw               no operator att_in, no fibre directly followed by a fibre *)
+     raw_ok raw               no fibre directly followed by a fibre (add_inline_amplifier separates them) *)
 From Coq Require Import QArith Qminmax Lia.
 From Verif Require Import Prelude Model.Select Model.PowerDesign Proofs.Select Proofs.PowerDesign.
 Open Scope Q_scope.
@@ -50,17 +50,6 @@ Theorem C09_gain_is_loss_plus_change : forall c lib bmin bmax pref_total prev_dp
   d_gain d - d_ivoa d == nl + d_dp d - prev_dp + prev_voa /\ d_dp d - d_ovoa d == dp - voa.
 Proof. exact set_one_budget. Qed.
 Print Assumptions C09_gain_is_loss_plus_change.
-
-(* full statement, false of the faithful model (finding F-pad-att-in): the budget closes for every loaded OMS.
-     forall ... raw ds, rnff raw -> design ... (prep c raw) = Ok ds -> Forall2 ... (walk p0 (prep c raw) ds) ds
-   refuted by an operator att_in on a padded span: *)
-Theorem C09_budget_refuted_att_in :
-  exists c lib bmin bmax pref_ch pref_total p0 s e raw ds,
-    rnff raw /\
-    design c lib bmin bmax pref_ch pref_total p0 s e (prep c raw) = Ok ds /\
-    ~ Forall2 (fun q d => q == pref_ch + d_dp d) (walk p0 (prep c raw) ds) ds.
-Proof. exact budget_refuted_att_in. Qed.
-Print Assumptions C09_budget_refuted_att_in.
 
 (* ---- the power rule *)
 (* target_power: 0 before a ROADM, otherwise the slope rule on the next span's loss, rounded to the step and clamped *)
@@ -104,23 +93,16 @@ Theorem C09_dp_saturation : forall c lib bmin bmax pref_total prev_dp prev_voa n
 Proof. exact dp_saturation. Qed.
 Print Assumptions C09_dp_saturation.
 
-(* with the automatic VOA included, the total design power stays within p_max when voa_margin >= step / 2 *)
+(* total design power never exceeds the amplifier's maximum output, automatic VOA included (it is capped at the
+   head-room).  Gain mode: the test of an imposed variety is made before the input VOA, hence in_voa >= 0 *)
 Theorem C09_design_within_pmax : forall c lib bmin bmax pref_ch pref_total p0 s e chain ds,
-  voa_margin_ok c -> c_power_mode c = true ->
+  (c_power_mode c = true \/
+   Forall (fun x => match x with Amp a => 0 <= ozero (an_ivoa a) | _ => True end) chain) ->
   design c lib bmin bmax pref_ch pref_total p0 s e chain = Ok ds ->
   Forall (fun d => exists params, In params lib /\ a_name params = d_variety d /\
                                   pref_total + d_dp d <= a_pmax params) ds.
 Proof. exact design_within_pmax. Qed.
 Print Assumptions C09_design_within_pmax.
-
-(* full statement without the margin hypothesis is false of the faithful model (finding F-voa-overshoot) *)
-Theorem C09_voa_overshoot_refuted :
-  exists c lib bmin bmax pref_total prev_dp prev_voa nl tp tp_arg prev next a d dp voa p,
-    ~ voa_margin_ok c /\ c_power_mode c = true /\
-    set_one c lib bmin bmax pref_total prev_dp prev_voa nl tp tp_arg prev next a = Ok (d, dp, voa) /\
-    find_amp (d_variety d) lib = Some p /\ a_pmax p < pref_total + d_dp d.
-Proof. exact voa_overshoot_refuted. Qed.
-Print Assumptions C09_voa_overshoot_refuted.
 
 (* ---- operator settings are kept unless they saturate *)
 Theorem C09_user_offset_kept : forall c lib bmin bmax pref_total prev_dp prev_voa nl tp tp_arg prev next a d dp voa u,
@@ -168,15 +150,15 @@ Theorem C09_voa_rule : forall c lib bmin bmax pref_total prev_dp prev_voa nl tp 
      | None =>
          voa = 0 /\
          (if c_power_mode c && a_voa_auto params
-          then d_ovoa d = Qmax (round2float (Qmin (a_pmax params - pt) (a_gmax params - (g0 + red))) (c_voa_step c)
-                                - c_voa_margin c) 0 /\
+          then (let raw := Qmin (a_pmax params - pt) (a_gmax params - (g0 + red)) in
+                d_ovoa d = Qmax (Qmin (round2float raw (c_voa_step c) - c_voa_margin c) raw) 0) /\
                d_gain d == g0 + red + d_ovoa d /\ d_dp d == dp + d_ovoa d
           else d_ovoa d = 0 /\ d_gain d == g0 + red /\ d_dp d == dp)
      end).
 Proof. exact voa_rule. Qed.
 Print Assumptions C09_voa_rule.
 
-(* ---- the preparation yields consistent span losses whenever the operator gave no att_in *)
+(* ---- the preparation (connectors, EOL, padding - operator att_in included) yields consistent span losses *)
 Theorem C09_prep_budget_wf : forall c raw, raw_ok raw -> budget_wf [] (prep c raw).
 Proof. exact prep_budget_wf. Qed.
 Print Assumptions C09_prep_budget_wf.
@@ -197,7 +179,7 @@ Definition ex_raw : list relem :=
    RAmp (mkAN (mkNode "" []) None None None None ex_nfs)].
 
 Example ex_raw_ok : raw_ok ex_raw.
-Proof. split; [repeat constructor; reflexivity | cbn; tauto]. Qed.
+Proof. cbn; tauto. Qed.
 
 Example ex_design :
   match design ex_cfg ex_lib 191300 196100 0 (16 # 1) (-20) (StartRoadm []) (EndRoadm []) (prep ex_cfg ex_raw) with
@@ -207,10 +189,21 @@ Example ex_design :
   end.
 Proof. vm_compute. repeat split. Qed.
 
-(* the hypothesis of C09_design_within_pmax holds for the default margin 1 dB / step 0.5 dB *)
-Example ex_margin_ok : voa_margin_ok ex_cfg.
-Proof.
-  split.
-  - intros _. vm_compute. discriminate.
-  - intros H. exfalso. apply H. vm_compute. discriminate.
-Qed.
+(* regressions of the two repaired defects, on the model: an operator att_in 2 dB on a padded span (4 dB of fibre,
+   connectors 0.5 + 0.5, padding 10) and an automatic VOA with margin 0 / step 0.5 and 0.3 dB of head-room *)
+Example ex_att_in_padded :
+  let c := w_cfg true 1 in
+  let raw := [RAmp (w_amp None None None None); RFib (mkRF 4 (Some (1 # 2)) (Some (1 # 2)) 2 [2 # 10000]);
+              RAmp (w_amp None None None None)] in
+  match design c w_lib 191300 196100 0 10 (-20) (StartRoadm []) (EndRoadm []) (prep c raw) with
+  | Ok ds => walk_okb 0 (-20) (prep c raw) ds = true /\ length ds = 2%nat
+  | Err _ => False
+  end.
+Proof. vm_compute. split; reflexivity. Qed.
+
+Example ex_voa_capped :
+  match set_one (w_cfg true 0) w_lib 191300 196100 16 0 0 20 (Ok 0) 0 NOther NOther (w_amp None (Some 0) None None) with
+  | Ok (d, _, _) => Qeq_bool (d_ovoa d) (3 # 10) = true /\ Qle_bool (16 + d_dp d) (163 # 10) = true
+  | Err _ => False
+  end.
+Proof. vm_compute. split; reflexivity. Qed.
